@@ -26,6 +26,7 @@ def main():
     a = ap.parse_args()
     props = a.props or sorted(f[:-3] for f in os.listdir(os.path.join(VERIF, "props")) if f[0] == "c" and f[1:3].isdigit() and f.endswith(".py"))
     bad = 0
+    summary = {}
     for p in props:
         res = []
         for hs, rev in (("0", "0"), ("12345", "1")):
@@ -37,6 +38,18 @@ def main():
                 print(p, "CHILD FAILED", r.stderr[-400:]); bad += 1; res.append({})
         diff = [i for i in res[0] if res[0].get(i) != res[1].get(i)]
         print(p, "runs", len(res[0]), "differences", len(diff), diff[:5]); bad += bool(diff)
+        summary[p] = {"runs": len(res[0]), "differences": len(diff)}
+    path = os.path.join(VERIF, "evidence", "determinism.json")
+    old = {}
+    if os.path.exists(path):
+        try:
+            old = json.load(open(path)).get("modules", {})
+        except Exception:
+            old = {}
+    old.update(summary)
+    json.dump({"method": "each module: the same (seed, index) runs in two fresh interpreters, PYTHONHASHSEED 0 vs 12345, "
+                         "forward vs reverse order; event-log digest, outcome and violation keys compared per run",
+               "search_seed": a.seed, "modules": old}, open(path, "w"), indent=1)
     return 1 if bad else 0
 if __name__ == "__main__":
     sys.exit(main())
